@@ -215,7 +215,23 @@ func runCodec(in, out, tmp, summary string) {
 					}
 				}()
 				// (the library writes bucket metadata with a plain WriteAt of Encode())
-				if err := os.WriteFile(path, mutate(enc, c.Mut.Type, c.Mut.I), 0644); err != nil {
+				// the file first holds a record that is `stale` bytes longer, then the
+				// record of the template is written over it
+				stale := ti(c.T, "stale")
+				old := nutsdb.VerifNewBucketMeta(start, append(append([]byte{}, end...), fill(stale, 'o')...)).Encode()
+				if stale == 0 || c.Mut.Type == "trunc" {
+					old = nil
+				}
+				if err := os.WriteFile(path, old, 0644); err != nil {
+					panic("harness: " + err.Error())
+				}
+				fd, err := os.OpenFile(path, os.O_RDWR, 0644)
+				if err != nil {
+					panic("harness: " + err.Error())
+				}
+				_, err = fd.WriteAt(mutate(enc, c.Mut.Type, c.Mut.I), 0)
+				fd.Close()
+				if err != nil {
 					panic("harness: " + err.Error())
 				}
 				g, err := nutsdb.ReadBucketMeta(path)
